@@ -1,5 +1,5 @@
 (* C05/C06 - what the position query of positionFormula / UFormula / eqIndex answers (Model/C06_Query.v). *)
-From Coq Require Import ZArith QArith Qabs Qround Qminmax List Bool Lia Lra.
+From Coq Require Import ZArith QArith Qabs Qround Qminmax List Bool Lia Lqa.
 From DS Require Import Base.ZMat Model.C05_QBase Model.C06_Query Proofs.C05_QLemmas.
 Import ListNotations.
 Open Scope Q_scope.
